@@ -75,7 +75,13 @@ func (self *Fork) postProcess(ctx context.Context) error {
 			errs = append(errs, err)
 		}
 		noutMap := make(MarshalerMap, len(outs))
-		for k, elem := range outs {
+		forkKeys := make([]string, 0, len(outs))
+		for k := range outs {
+			forkKeys = append(forkKeys, k)
+		}
+		sort.Strings(forkKeys)
+		for _, k := range forkKeys {
+			elem := outs[k]
 			util.Print("Fork \"%s\":\n", k)
 			if err := syntax.IsLegalUnixFilename(k); err != nil {
 				// The key is used as the name of this fork's directory in
@@ -296,7 +302,12 @@ func moveOutDir(w *bytes.Buffer, value json.RawMessage,
 	switch t := t.(type) {
 	case *syntax.TypedMapType:
 		keys := make([]string, 0, len(valueMap))
+		allKeys := make([]string, 0, len(valueMap))
 		for k := range valueMap {
+			allKeys = append(allKeys, k)
+		}
+		sort.Strings(allKeys)
+		for _, k := range allKeys {
 			if err := syntax.IsLegalUnixFilename(k); err != nil {
 				util.PrintError(err, "cannot create out directory %q", k)
 				errs = append(errs, fmt.Errorf(
